@@ -63,7 +63,7 @@ def evSplitToSequence (st : St) (n : Node) : EvRes Ã— St :=
             | some [k] => .ok (some (k.toNat, [], fun outs => mkNode "Split" [some x, some s] outs [("axis", .int axis)]), st.note "sts:shape1d")
             | _ =>
               match splitValue with
-              | none => .error "split_to_sequence: AttributeError (split_value is None)"
+              | none => .ok (none, st.note "sts:novalue")
               | some c =>
                 if c.shape.length == 1 then
                   .ok (some (c.size, [], fun outs => mkNode "Split" [some x, some s] outs [("axis", .int axis)]), st.note "sts:value1d")
@@ -135,7 +135,7 @@ def lookupEvaluator (n : Node) (version : Nat) : Option (St â†’ Node â†’ EvRes Ã
   | "Dropout" => if version â‰¥ 12 then some evDropout else none
   | "Expand" => some evExpand
   | "ConcatFromSequence" => some evConcatFromSequence
-  | "SplitToSequence" => some evSplitToSequence
+  | "SplitToSequence" => if version â‰¥ 18 then some evSplitToSequence else none
   | "SequenceAt" => some evSequenceAt
   | _ => none
 
